@@ -330,6 +330,8 @@ func (idx *Index) Reset(rootGoitPath string, hash sha.SHA1) error {
 	if err != nil {
 		return fmt.Errorf("fail to get entries from tree: %w", err)
 	}
+	// the index is kept sorted by path, whatever order the tree lists its entries in
+	sort.Slice(entries, func(i, j int) bool { return string(entries[i].Path) < string(entries[j].Path) })
 	idx.Header.EntryNum = uint32(len(entries))
 	idx.Entries = entries
 
